@@ -478,7 +478,20 @@ def build_stimuli(run, wd):
 
 def produce(run):
     """Build stimuli, run the harness (replay + seeded random). Cached per (tier, seed, harness binary) so that C01 and C02
-    judge the same recording without paying for it twice; the cache never outlives a change of the binary."""
+    judge the same recording without paying for it twice; the cache never outlives a change of the binary.
+    C01 and C02 may be started at the same time: the whole step runs under an exclusive file lock (the second one waits
+    and then reuses the first one's recording)."""
+    import fcntl
+    os.makedirs(WORK, exist_ok=True)
+    with open(os.path.join(WORK, "pool_cache.lock"), "w") as lk:
+        fcntl.flock(lk, fcntl.LOCK_EX)
+        try:
+            return _produce(run)
+        finally:
+            fcntl.flock(lk, fcntl.LOCK_UN)
+
+
+def _produce(run):
     vlib.cargo_build(["h_pool"])
     ident = "%s-%s-%s-%s" % (run.tier, run.seed, bin_identity(), source_identity())
     cdir = os.path.join(WORK, "pool_cache", ident)
@@ -494,7 +507,7 @@ def produce(run):
             run.assume("stimuli and recordings reused from the sibling pool check of this tier/seed/harness binary (%s)" % ident)
             return b
     shutil.rmtree(os.path.join(WORK, "pool_cache"), ignore_errors=True)
-    os.makedirs(cdir)
+    os.makedirs(cdir, exist_ok=True)
     n0 = len(run.cov["tlc_runs"])
     b = build_stimuli(run, cdir)
     sp = os.path.join(cdir, "stimuli.ndjson")
